@@ -28,3 +28,43 @@ func VerifC09_Schemes() {
 		verifAssert("schemes-sorted-and-distinct", refHost[i-1] < refHost[i])
 	}
 }
+
+// VerifC09_InheritedErrorsOrder: the errors a method inherits from its service
+// come after its own, in the order the service declares them, whatever order
+// Go iterates maps in.
+func VerifC09_InheritedErrorsOrder() {
+	Root = &RootExpr{API: &APIExpr{Name: "a"}}
+	mkErr := func(n string) *ErrorExpr {
+		return &ErrorExpr{Name: n, AttributeExpr: &AttributeExpr{Type: ErrorResult}}
+	}
+	names := []string{"alpha", "beta", "gamma", "delta"}
+	svc := &ServiceExpr{Name: "s"}
+	for _, n := range names {
+		svc.Errors = append(svc.Errors, mkErr(n))
+	}
+	m := &MethodExpr{Name: "m", Service: svc}
+	// the method declares one error of its own and may redefine a service-level one
+	m.Errors = []*ErrorExpr{mkErr("own")}
+	redefined := nondetChoice("redefines", len(names)+1)
+	if redefined < len(names) {
+		m.Errors = append(m.Errors, mkErr(names[redefined]))
+	}
+	want := "own,"
+	if redefined < len(names) {
+		want += names[redefined] + ","
+	}
+	for i, n := range names {
+		if i != redefined {
+			want += n + ","
+		}
+	}
+	verifMapOrder(2)
+	m.Finalize()
+	verifMapOrder(0)
+	got := ""
+	for _, e := range m.Errors {
+		got += e.Name + ","
+	}
+	verifObserve("got", got)
+	verifAssert("inherited-errors-in-declaration-order", got == want)
+}
